@@ -35,7 +35,7 @@ def budget(tier):
 
 
 def strategy(tier):
-    return drv.case_strategy(tier, classes=("hh", "st"), allow_clear=True, max_ops=50, small=True)
+    return drv.case_strategy(tier, classes=("hh", "st"), allow_clear=True, max_ops=50, small=True, extra_ops=True)
 
 
 def exhaustive(tier):
